@@ -63,7 +63,8 @@ impl Engine for Conformance {
                 return out;
             }
             Ok(Err(EncErr::Options(e))) => {
-                out.fail(format!("options-rejected:{}", strip_digits(&e)), e);
+                let _ = e;
+                out.label("options-refused");
                 return out;
             }
             Ok(Err(e)) => {
